@@ -35,6 +35,8 @@ func mix(seed uint64, class uint64, idx int) uint64 {
 	return r.Uint64()
 }
 
+var hangs int
+
 func runOne(w *rec.Writer, d caseDesc) {
 	switch d.Kind {
 	case "A":
@@ -76,7 +78,7 @@ func main() {
 	if o.Tier == "thorough" {
 		nC = o.N / 40
 	}
-	for i := 0; i < nA; i++ {
+	for i := 0; i < nA && hangs < 12; i++ { // a dozen hanging scenarios are enough evidence
 		runDirect(w, caseDesc{Kind: "A", Seed: o.Seed, Idx: i})
 	}
 	for i := 0; i < nB; i++ {
